@@ -6,6 +6,25 @@ use crate::dns::WireFormat;
 use crate::{Packet, ResourceRecord};
 use std::collections::HashMap;
 
+// counting allocator: total bytes requested from the allocator (the test binary is single-purpose)
+struct Counting;
+static ALLOCATED: std::sync::atomic::AtomicUsize = std::sync::atomic::AtomicUsize::new(0);
+unsafe impl std::alloc::GlobalAlloc for Counting {
+    unsafe fn alloc(&self, l: std::alloc::Layout) -> *mut u8 {
+        ALLOCATED.fetch_add(l.size(), std::sync::atomic::Ordering::Relaxed);
+        std::alloc::System.alloc(l)
+    }
+    unsafe fn dealloc(&self, p: *mut u8, l: std::alloc::Layout) {
+        std::alloc::System.dealloc(p, l)
+    }
+    unsafe fn realloc(&self, p: *mut u8, l: std::alloc::Layout, n: usize) -> *mut u8 {
+        ALLOCATED.fetch_add(n.saturating_sub(l.size()), std::sync::atomic::Ordering::Relaxed);
+        std::alloc::System.realloc(p, l, n)
+    }
+}
+#[global_allocator]
+static COUNTING: Counting = Counting;
+
 fn hex(b: &[u8]) -> String {
     b.iter().map(|x| format!("{:02x}", x)).collect()
 }
@@ -213,6 +232,15 @@ fn run(case: &HashMap<String, String>) -> String {
                 }
                 Err(_) => "{\"outcome\":\"err\",\"fails\":[]}".to_string(),
             }
+        }
+        "packet_parse_alloc" => {
+            let before = ALLOCATED.load(std::sync::atomic::Ordering::Relaxed);
+            let r = Packet::parse(&bytes);
+            let used = ALLOCATED.load(std::sync::atomic::Ordering::Relaxed) - before;
+            drop(r);
+            // "modest linear function of the input length"
+            let budget = 32 * bytes.len() + 1024;
+            format!("{{\"outcome\":\"{}\",\"allocated\":{},\"budget\":{}}}", if used > budget { "alloc" } else { "ok" }, used, budget)
         }
         "packet_frame" => {
             let wp: usize = case["walker_pos"].parse().unwrap();
